@@ -88,7 +88,12 @@ ORec == {Struct("Rec", <<Field("Next", "", {}, Ptr(RecT)), Field("V", "", {}, Pr
          Struct("Rec", <<Field("Kids", "", {}, Slice(RecT))>>),
          Struct("Rec", <<Field("M", "", {}, MapOf(RecT)), Field("V", "", {}, Prim("string"))>>),
          Struct("Rec", <<Field("W", "", {}, Struct("Wrap", <<Field("R", "", {}, Ptr(RecT))>>))>>),
-         Slice(Struct("Rec", <<Field("Next", "", {}, Ptr(RecT))>>))}
+         Slice(Struct("Rec", <<Field("Next", "", {}, Ptr(RecT))>>)),
+         \* mutual recursion of two named types (up = 2: the back edge goes to the OUTER of the two)
+         Struct("Rec", <<Field("B", "", {}, Ptr(Struct("Rec", <<Field("A", "", {}, Ptr([k |-> "rec", up |-> 2])), Field("V", "", {}, Prim("int8"))>>))),
+                         Field("W", "", {}, Prim("string"))>>),
+         Struct("Rec", <<Field("Kids", "", {}, Slice(Struct("Rec", <<Field("Parent", "", {}, Ptr([k |-> "rec", up |-> 2])), Field("Sib", "", {}, Ptr(RecT))>>)))>>),
+         MapOf(Struct("Rec", <<Field("M", "", {}, MapOf(Struct("Rec", <<Field("Back", "", {}, Slice([k |-> "rec", up |-> 2]))>>)))>>))}
 \* a named type occurring several times is NOT a cycle
 OMany == {Struct("S", <<Field("A", "", {}, Inner), Field("B", "", {}, Inner), Field("C", "", {}, Slice(Inner)), Field("D", "", {}, Ptr(Inner))>>),
           Struct("S", <<Field("A", "", {}, MapOf(Inner)), Field("B", "", {}, Array(Inner, 2))>>)}
